@@ -124,6 +124,10 @@ class E1(Base):
     MAXP = 3
     NBOX = 8
     USE_BOX = True
+    #: share of Mixed runs on the tabulated planner path (F8 knob)
+    TABULATED = 0.35
+    #: share of online-class runs finalised late by injected finalize calls
+    LATE_FIN = 0.0
 
     def draw_slot(self, rng, tier):
         nmax, rfmax = self.SIZES[tier]
@@ -144,12 +148,23 @@ class E1(Base):
         else:
             cfg, passes = self.draw_slot(rng, tier)
         style = "every" if rng.random() < 0.7 else "first"
+        if rng.random() < 0.3:
+            style += "+for"
         faults = {}
         if self.OBS_RATE and rng.random() < 0.7:
             faults = {"obs": self.OBS_RATE, "obs_before": 0.5}
+        planner = "memo"
+        if cfg["cls"] == "Mixed" and cfg["N"] <= 64 and \
+                rng.random() < self.TABULATED:
+            planner = "tabulated"
+        if self.LATE_FIN and cfg["cls"] in ("None", "SingleMemory",
+                                            "SingleDisk", "TwoLevel") \
+                and rng.random() < self.LATE_FIN:
+            style = "manual" + ("+for" if style.endswith("+for") else "")
+            faults = dict(faults, fin=0.35)
         return Plan([(cfg, passes, style)], faults=faults,
-                    overrun=self.OVERRUN,
-                    conclude_obs=2 if faults else 0)
+                    overrun=self.OVERRUN, knobs=[("planner", planner)],
+                    conclude_obs=2 if faults.get("obs") else 0)
 
     def box_size(self):
         return len(small_box(self.NBOX)) if self.USE_BOX else 0
